@@ -28,7 +28,7 @@ def sh(cmd, cwd=copy, extra=None, timeout=3000):
 
 
 howto = open(os.path.join(src, "HOWTO.txt")).read() if os.path.exists(os.path.join(src, "HOWTO.txt")) else ""
-seedroot = re.search(r"/tmp/seed2?_c\d+", howto + src).group(0)
+seedroot = re.search(r"/tmp/seed\d?_c\d+", howto + src).group(0)
 m = re.search(r"cp\s+(?:-r\s+)?(\S*demo\S*)\s+(\S+)", howto) or re.search(r"copy\s+(\S*demo\S*)\s+to\s+(\S+)", howto)
 demo_src = os.path.join(src, os.path.basename(m.group(1).rstrip("/"))) if m else os.path.join(src, "demo_test.go")
 demo_dst = m.group(2).replace(seedroot, copy) if m else None
